@@ -24,6 +24,12 @@ func (e *entry[K, V]) String() string {
 type node[K comparable, V Conn] struct {
 	next *entry[K, V]
 	prev *entry[K, V]
+
+	// linked is true while the entry is a member of the list. it makes
+	// removeEntry idempotent: an entry can be unlinked by Take, Put or Close
+	// while its expiration callback is already running and about to unlink
+	// it again.
+	linked bool
 }
 
 type list[K comparable, V Conn] struct {
@@ -45,10 +51,15 @@ func (l *list[K, V]) appendEntry(ent *entry[K, V], node func(*entry[K, V]) *node
 	}
 	l.tail = ent
 	l.count++
+	node(ent).linked = true
 }
 
 func (l *list[K, V]) removeEntry(ent *entry[K, V], node func(*entry[K, V]) *node[K, V]) {
 	n := node(ent)
+	if !n.linked {
+		return
+	}
+	n.linked = false
 	if l.head == ent {
 		l.head = n.next
 	}
